@@ -9,7 +9,7 @@ from functools import lru_cache
 from pathlib import Path
 
 from . import decio
-from .core import REPO
+from .core import REPO, Machinery
 from .descriptor import parse_all
 
 DEFAULT_TOP, DEFAULT_SUB = "{mother} -> {daughters}", "({mother} -> {daughters})"
@@ -192,6 +192,38 @@ def build_generated(args):
         else:
             if names[q] in p.list_decay_mother_names():
                 out.append(expand_case(p, names[q], cid, {"text": text, "asrc": src}))
+    return out
+
+
+def build_ladder(args):
+    """table sets past the sizes of the enumerated universe: a ladder of `depth` nested tables (every one the daughter of
+    the one before, each with a second line of stable daughters), queried at the top, in the middle and with stable
+    particles at a chosen rung"""
+    prop, cid, depth, seed = args
+    rng = random.Random(seed)
+    pool = [w for w in decio.label_pool() if decio.label_ok(w) and decio._readable(w)]     # names a descriptor can be read back with
+    names = rng.sample(pool, depth + 3)
+    rungs, leaves = names[:depth], names[depth:]
+    models = decio.model_names()
+    text = ""
+    for i, n in enumerate(rungs):
+        text += f"Decay {n}\n"
+        if i + 1 < depth:
+            ds = [rungs[i + 1], rng.choice(leaves)]
+            rng.shuffle(ds)
+            text += f"  0.{rng.randint(1, 8)}  {' '.join(ds)}  {rng.choice(models)};\n"
+        text += f"  0.0{rng.randint(1, 9)}  {rng.choice(leaves)} {rng.choice(leaves)}  {rng.choice(models)};\n"
+        text += "Enddecay\n"
+    p, err, _ = decio.parse_text(text)
+    if p is None:
+        raise Machinery(f"ladder file does not parse: {err!r}\n{text}")
+    out = []
+    for top in (0, depth // 2):
+        if prop == "C09":
+            for S in ([], [rungs[depth - 2]], [rungs[min(top + 1, depth - 1)]], [leaves[0], rungs[depth - 1]]):
+                out.append(chain_case(p, rungs[top], S, cid, {"text": text}))
+        else:
+            out.append(expand_case(p, rungs[top], cid, {"text": text}))
     return out
 
 
